@@ -228,6 +228,19 @@ def run(prog, chk):
                                    callbacks_clobber=False) < 4:
         raise Broken("fewer than 4 locals computed from tvalue_length in parser.c")
 
+    r10 = chk.rule("R10-scanner-range-tests", "the scanner's range tests on code units cut exactly at the boundaries of the "
+                   "non-character and surrogate classes", primary=False, floor=8)
+    from .. import unirange
+    if unirange.rule(prog, r10, units=("parser.c",)) < 8:
+        raise Broken("fewer than 8 code-unit range comparisons found in parser.c")
+
+    r11 = chk.rule("R11-rewind-resets-column", "where the scan position is set back to the start of the current token text so that the "
+                   "text is scanned again, the column is set back with it before scanning resumes (the over-length test counts "
+                   "columns): the reset after the version-comment pre-scan; the two error-recovery push-backs of parse_table are "
+                   "exempt with their reason", primary=False, floor=1)
+    if rewind_rule(prog, r11) < 1:
+        raise Broken("no rewind of next_char to text_start found outside the refill functions")
+
     r7 = chk.rule("R7-disallowed-character-class", "the per-character validation macro reports each non-character code unit (U+FEFF, "
                   "U+FFFE/F, U+FDD0..FDEF) as CIF_DISALLOWED_CHAR and no ordinary character, in every scan function "
                   "(evaluated over the CFG for chosen code units)", primary=False, floor=5)
@@ -519,5 +532,49 @@ def backup_rule(prog, rule):
                                % (a.get("l"), ", ".join(sorted({str(fn.blocks[bid].term.get("l")) for (bid, idx) in edges}))))
             else:
                 rule.ok(key, "only reached after a character was scanned")
+    return n
+
+
+# rewinds whose missing column adjustment only affects the columns reported for later errors on the same line
+REWIND_EXEMPT = {
+    "parse_table": "TRIM_TOKEN in the recovery from CIF_NULL_KEY / CIF_UNQUOTED_KEY: an error has been reported already; the property "
+                   "speaks of line numbers, which are unaffected",
+}
+
+
+def rewind_rule(prog, rule):
+    n = 0
+    for fn in prog.all_functions():
+        if fn.unit != "parser.c" or fn.name in ("get_more_chars", "get_first_char"):
+            continue
+        col_stores = set()
+        for (b, i, r, a) in fn.eval_sites("asg"):
+            if (path(strip(a.get("lhs"))) or "").endswith("->column"):
+                col_stores.add(b.id)
+        scans = {b.id for (b, i, r, c) in fn.calls() if c.get("callee") and re.match(r"^(next_token|scan_|parse_|get_more_chars)", c["callee"])}
+        for (b, i, r, a) in fn.eval_sites("asg"):
+            lp = path(strip(a.get("lhs"))) or ""
+            if not lp.endswith("->next_char") or a.get("op") != "=":
+                continue
+            if not any((path(x) or "").endswith("->text_start") for x in walk(a.get("rhs")) if x.get("k") == "member"):
+                continue
+            n += 1
+            key = "%s:L%s" % (fn.name, a.get("l"))
+            if fn.name in REWIND_EXEMPT:
+                rule.ok(key, "exempt: " + REWIND_EXEMPT[fn.name])
+                continue
+            # a column store in the same block after the rewind, or on every path before scanning resumes / the function ends
+            same = any((path(strip(y.get("lhs"))) or "").endswith("->column") for r2 in b.roots for y in walk_eval(r2) if y.get("k") == "asg")
+            if same:
+                rule.ok(key, "the column is stored in the same straight-line sequence as the rewind")
+                continue
+            free = cfgq.reach(fn, [b.id], col_stores - {b.id})
+            if (free & scans) - {b.id} or fn.exit in free:
+                rule.violation(fn.file, fn.name, a.get("l"), "rewind-without-column:%s" % fn.name,
+                               "next_char is set back to the start of the token text at L%s and scanning can resume (or the function "
+                               "return) without the column having been set back: the characters scanned again are counted twice, "
+                               "and a legal first line of up to 2048 characters is reported as over-length" % a.get("l"))
+            else:
+                rule.ok(key, "a column store follows on every path before scanning resumes")
     return n
 
